@@ -102,10 +102,18 @@ def _r10(ctx, pkg):
                           expected="replace(prefix, '', 1) / slicing / removeprefix", found=ast.unparse(c)[:80])
     fn = pkg.cls("KROMEReaction").methods.get("preprocessing")
     st = [a for a in ast.walk(fn) if isinstance(a, ast.Assign) and any(isinstance(t, ast.Attribute) and t.attr == "reacformat" for t in a.targets)] if fn else []
-    ok = len(st) == 1 and re.fullmatch(r"\w+\.replace\('@format:', ''(, 1)?\)(\.strip\(\))?|\w+\[len\('@format:'\):\](\.strip\(\))?|\w+\.removeprefix\('@format:'\)(\.strip\(\))?",
-                                   ast.unparse(st[0].value)) is not None
-    ctx.check(ok, "R10", "KROME:@format: column list", ("naunet/reactions/kromereaction.py", st[0].lineno if st else 0),
-              "the column list is the directive line without the literal prefix `@format:`", expected="line.replace('@format:', '')", found=ast.unparse(st[0].value)[:80] if st else "no store")
+    KF = "naunet/reactions/kromereaction.py"
+    if len(st) != 1:
+        ctx.unrec("R10", "KROME:@format: column list", (KF, fn.lineno if fn else 0), f"expected one store into reacformat in preprocessing, found {len(st)}")
+    else:
+        src = ast.unparse(st[0].value)
+        ok = re.fullmatch(r"\w+\.replace\('@format:', ''(, 1)?\)(\.strip\(\))?|\w+\[len\('@format:'\):\](\.strip\(\))?|\w+\[8:\](\.strip\(\))?|\w+\.removeprefix\('@format:'\)(\.strip\(\))?", src) is not None
+        wrong = re.search(r"\.[lr]?strip\('[^']*\w\w[^']*'\)|\[\s*(?!8:)\d+:\]", src) is not None     # a word used as a character set / another offset
+        if ok or wrong:
+            ctx.check(ok, "R10", "KROME:@format: column list", (KF, st[0].lineno),
+                      "the column list is the directive line without the literal prefix `@format:`", expected="line.replace('@format:', '')", found=src[:80])
+        else:
+            ctx.unrec("R10", "KROME:@format: column list", (KF, st[0].lineno), f"cannot see that the column list is the directive line minus `@format:`: {src[:80]}")
     ctx.floor("R10", "strip calls with a literal argument", n, 0)
 
 
@@ -129,10 +137,17 @@ def _r1(ctx, pkg):
         # or the argument itself is already stripped
         if arg[0] == "meth" and arg[2] == "strip" and any(simp(g) == arg and p for g, p in f.guards):
             stripped = True
-        ctx.check(stripped, "R1", "_reaction_factory:blank-line test", (NET, f.line),
-                  "a reaction is created only when the pre-processed line is non-blank after strip()" if stripped else
-                  "the emptiness test is made on the raw line: a line holding only blanks / the terminator is truthy and becomes a reaction",
-                  expected="if react_string and react_string.strip():", found="; ".join(show(simp(g))[:100] for g, _ in f.guards))
+        # the line is tested through something this rule cannot read (a helper, a regular expression): not a verdict
+        base_ = arg[1] if arg[0] == "meth" and arg[2] == "strip" else arg
+        hidden = [g for g, pol in f.guards for x in walk(simp(g)) if isinstance(x, tuple) and x and x[0] in ("call", "meth") and not (x[0] == "meth" and x[2] in ("strip", "preprocessing"))
+                  and any(y == base_ for a_ in (x[2] if x[0] == "call" else x[3]) for y in walk(a_))]
+        if not stripped and hidden:
+            ctx.unrec("R1", "_reaction_factory:blank-line test", (NET, f.line), "the emptiness of the pre-processed line is tested through " + show(simp(hidden[0]))[:80])
+        else:
+            ctx.check(stripped, "R1", "_reaction_factory:blank-line test", (NET, f.line),
+                      "a reaction is created only when the pre-processed line is non-blank after strip()" if stripped else
+                      "the emptiness test is made on the raw line: a line holding only blanks / the terminator is truthy and becomes a reaction",
+                      expected="if react_string and react_string.strip():", found="; ".join(show(simp(g))[:100] for g, _ in f.guards))
         pre = any(isinstance(x, tuple) and len(x) >= 3 and x[0] == "meth" and x[2] == "preprocessing" for x in walk(arg))
         ctx.check(pre, "R1", "_reaction_factory:preprocessing", (NET, f.line), "the line handed to the parser is the class's preprocessing of the raw line")
     # base preprocessing is the identity
@@ -152,19 +167,36 @@ def _r1(ctx, pkg):
               "only KROME (whose syntax defines comment and directive lines) filters lines", expected="['KROMEReaction']", found=str(over))
     k = pkg.method("KROMEReaction", "preprocessing")
     kfl = Flow(k, "naunet/reactions/kromereaction.py")
-    drops = [f for f in kfl.facts if f.kind == "return" and f.value == ("const", "")]
-    keeps = [f for f in kfl.facts if f.kind == "return" and f.value != ("const", "")]
-    pref = set()
-    for f in drops:
-        for g, pol in f.guards:
-            if pol:
-                for x in walk(simp(g)):
-                    if isinstance(x, tuple) and len(x) == 5 and x[0] == "meth" and x[2] == "startswith":
-                        a = x[3][0]
-                        pref |= set(y[1] for y in (a[1] if a[0] == "tuple" else (a,)) if y[0] == "const")
-    ctx.check(pref == {"#", "//", "@format:", "@var", "@common:"} and len(keeps) == 1 and simp(keeps[0].value) == ("meth", ("param", "line"), "strip", (), ()),
-              "R1", "KROMEReaction.preprocessing", ("naunet/reactions/kromereaction.py", k.lineno),
-              "KROME drops exactly comment (#, //) and directive (@format:, @var, @common:) lines and keeps every other line (stripped)", found=str(sorted(pref)))
+    # by paths, whatever the arrangement of the returns: exactly one path keeps the line (returns line.strip()); it is the path on
+    # which the line starts with none of the comment / directive prefixes; every other path returns ""
+    K = "naunet/reactions/kromereaction.py"
+    rets = [f for f in kfl.facts if f.kind == "return"]
+    keeps = [f for f in rets if simp(f.value) != ("const", "")]
+    LINE = ("param", k.args.args[-1].arg) if k.args.args else ("param", "line")
+    if len(keeps) != 1 or simp(keeps[0].value) != ("meth", LINE, "strip", (), ()) or keeps[0].loops:
+        if any(simp(f.value)[0] not in ("const", "meth", "param") for f in keeps) or not keeps:
+            ctx.unrec("R1", "KROMEReaction.preprocessing", (K, k.lineno), "cannot see which lines are kept: expected one `return line.strip()` and `return \"\"` elsewhere")
+        else:
+            ctx.bad("R1", "KROMEReaction.preprocessing", (K, k.lineno), "KROME keeps every non-comment, non-directive line stripped and nothing else",
+                    expected="one return of line.strip()", found="; ".join(show(simp(f.value))[:40] for f in keeps))
+    else:
+        pref, foreign = set(), []
+        for g, pol in keeps[0].guards:
+            g = simp(g)
+            if g[0] == "meth" and g[1] == LINE and g[2] == "startswith" and len(g[3]) == 1 and not g[4] and not pol:
+                a = g[3][0]
+                lits = [y[1] for y in (a[1] if a[0] == "tuple" else (a,)) if y[0] == "const"]
+                if len(lits) == len(a[1] if a[0] == "tuple" else (a,)):
+                    pref |= set(lits)
+                    continue
+            foreign.append((g, pol))
+        want = {"#", "//", "@format:", "@var", "@common:"}
+        if foreign and not (pref - want):
+            ctx.unrec("R1", "KROMEReaction.preprocessing", (K, k.lineno), "the kept line is subject to a condition this rule cannot read: " + "; ".join(show(g)[:60] for g, _ in foreign)[:160])
+        else:
+            ctx.check(pref == want and not foreign, "R1", "KROMEReaction.preprocessing", (K, k.lineno),
+                      "KROME drops exactly comment (#, //) and directive (@format:, @var, @common:) lines and keeps every other line (stripped)",
+                      expected=str(sorted(want)), found=str(sorted(pref)) + ("; other conditions: " + "; ".join(show(g)[:50] for g, _ in foreign) if foreign else ""))
     # every parser guards against blank input
     n = 0
     for cls in ("Reaction", "KIDAReaction", "UMISTReaction", "LEEDSReaction", "UCLCHEMReaction", "KROMEReaction"):
@@ -204,9 +236,37 @@ def _r2(ctx, pkg):
     fn = pkg.method("UCLCHEMReaction", "_parse_string")
     fl = Flow(fn, "naunet/reactions/uclchemreaction.py")
     # the keyword list is found by role: it is what the tokens are tested against (`tok not in <list>`) in the comprehensions
-    # that create the reactants and the products
-    WANT = ("list", (("star", ("meth", ("attr", SELF, "reactant2type"), "keys", (), ())), ("const", "NAN")))
-    WANT2 = ("list", (("star", ("attr", SELF, "reactant2type")), ("const", "NAN")))       # iterating a dict iterates its keys
+    # that create the reactants and the products -- as a filter of its own or as one conjunct of the filter
+    def conjuncts(cs):
+        out = []
+        for c in cs:
+            c = simp(c)
+            out.extend(conjuncts(c[2]) if c[0] == "bool" and c[1] == "And" else [c])
+        return out
+
+    def members(v):
+        """elements of a list value written as a literal, a concatenation of lists, list(<iterable>): [elt | ("star", iterable)] or None"""
+        v = simp(v)
+        if v[0] in ("list", "tuple", "set"):
+            out = []
+            for e in v[1]:
+                if e[0] == "star":
+                    sub = members(e[1])
+                    out.extend(sub if sub is not None and e[1][0] in ("list", "tuple", "set", "binop") else [("star", keys_of(e[1]))])
+                else:
+                    out.append(e)
+            return out
+        if v[0] == "binop" and v[1] == "Add":
+            a, b = members(v[2]), members(v[3])
+            return a + b if a is not None and b is not None else None
+        if v[0] == "call" and v[1] in (("global", "list"), ("global", "tuple"), ("global", "sorted")) and len(v[2]) == 1 and not v[3]:
+            return [("star", keys_of(v[2][0]))]
+        return None
+
+    def keys_of(d):
+        # iterating a dict iterates its keys
+        return d[1] if d[0] == "meth" and d[2] == "keys" and not d[3] else d
+    WANT = {("star", ("attr", SELF, "reactant2type")), ("const", "NAN")}
     lists = []
     for attr in ("reactants", "products"):
         st = [f for f in fl.facts if f.kind == "attrstore" and f.target == attr]
@@ -215,24 +275,50 @@ def _r2(ctx, pkg):
             m = as_map(simp(st[-1].value))
             if m:
                 bv, body, base, ifs = m
-                ks = [c[2][1] for c in ifs if c[0] == "cmp" and c[1] == ("NotIn",) and c[2][0] == bv]
+                ks = [c[2][1] for c in conjuncts(ifs) if c[0] == "cmp" and c[1] == ("NotIn",) and c[2][0] == bv]
                 good = bool(ks)
                 lists += ks
+            elif st:
+                ctx.unrec("R2", f"UCLCHEM:{attr}:keyword filter", ("naunet/reactions/uclchemreaction.py", st[-1].line), "the list is not built by a comprehension this rule can read")
+                continue
         ctx.check(good, "R2", f"UCLCHEM:{attr}:keyword filter", ("naunet/reactions/uclchemreaction.py", st[-1].line if st else fn.lineno),
                   f"tokens of the keyword list are removed before the {attr} are created")
-    ok = len(lists) == 2 and all(simp(k) in (WANT, WANT2) for k in lists)
-    ctx.check(ok, "R2", "UCLCHEM:kwlist", ("naunet/reactions/uclchemreaction.py", fn.lineno), "the keyword list is every key of reactant2type plus the filler NAN",
-              found="; ".join(show(simp(k))[:100] for k in lists) or "missing")
+    got = [members(k) for k in lists]
+    if lists and any(g is None for g in got):
+        ctx.unrec("R2", "UCLCHEM:kwlist", ("naunet/reactions/uclchemreaction.py", fn.lineno), "the keyword list is not a literal / concatenation this rule can read: " + "; ".join(show(simp(k))[:80] for k in lists))
+    else:
+        ok = len(lists) == 2 and all(set(g) == WANT for g in got)
+        ctx.check(ok, "R2", "UCLCHEM:kwlist", ("naunet/reactions/uclchemreaction.py", fn.lineno), "the keyword list is every key of reactant2type plus the filler NAN",
+                  found="; ".join(show(simp(k))[:100] for k in lists) or "missing")
     # KROME: reactants/products appended only when _create_species(value) is truthy
     kfn = pkg.method("KROMEReaction", "_parse_string")
     kfl = Flow(kfn, "naunet/reactions/kromereaction.py")
-    aps = [f for f in kfl.facts if f.kind == "call" and f.target == "append" and f.value[1][0] == "attr" and f.value[1][2] in ("reactants", "products")]
-    good = len(aps) == 2
-    for f in aps:
-        arg = simp(f.value[3][0])
-        good = good and arg[0] == "meth" and arg[2] == "_create_species" and any(pol and any(x == arg for x in walk(simp(g))) for g, pol in f.guards)
-    ctx.check(good, "R2", "KROME:append only real species", ("naunet/reactions/kromereaction.py", kfn.lineno),
-              "a token is appended only when _create_species(token) is not None (pseudo-elements are dropped)")
+    # every append whose receiver is self.reactants / self.products -- named directly or through a local that stands for one of the
+    # two (`side = self.reactants if key == "r" else self.products`)
+    LISTS = {("attr", SELF, "reactants"): "reactants", ("attr", SELF, "products"): "products"}
+
+    def arms(v):
+        v = simp(v)
+        return arms(v[2]) + arms(v[3]) if v[0] in ("phi", "ifexp") else [v]
+    sites, blind = [], []
+    for f in kfl.facts:
+        if f.kind == "call" and f.target in ("append", "extend", "insert") and f.value[0] == "meth" and all(a in LISTS for a in arms(f.value[1])):
+            (sites if f.target == "append" and len(f.value[3]) == 1 else blind).append((f, {LISTS[a] for a in arms(f.value[1])}, f.value[3]))
+        elif f.kind in ("append", "mutate") and isinstance(f.target, str):
+            prev = [v for v, loops, guards, line, seq in kfl.assigns.get(f.target, []) if seq < f.seq]
+            if prev and all(a in LISTS for a in arms(prev[-1])):
+                (sites if f.kind == "append" and f.op == "append" else blind).append((f, {LISTS[a] for a in arms(prev[-1])}, (f.value,)))
+    covered = set().union(*[c for _, c, _ in sites]) if sites else set()
+    if blind or covered != {"reactants", "products"}:
+        ctx.unrec("R2", "KROME:append only real species", ("naunet/reactions/kromereaction.py", kfn.lineno),
+                  f"the reactant / product lists are not (only) filled by append calls this rule can read (appends seen for {sorted(covered)})")
+    else:
+        good = True
+        for f, _, args in sites:
+            arg = simp(args[0])
+            good = good and arg[0] == "meth" and arg[2] == "_create_species" and any(pol and any(x == arg for x in walk(simp(g))) for g, pol in f.guards)
+        ctx.check(good, "R2", "KROME:append only real species", ("naunet/reactions/kromereaction.py", kfn.lineno),
+                  "a token is appended only when _create_species(token) is not None (pseudo-elements are dropped)")
 
 
 # ------------------------------------------------------------------ R3 / R5 for split formats
@@ -258,6 +344,26 @@ def _unwrap(v):
             return v, wraps
 
 
+def _destructurings(fn, fl, min_targets=5):
+    """[(Assign node, IR of the destructured value)] for every tuple assignment with at least `min_targets` targets whose right-hand
+    side -- written in place or named in a local first -- is a str.split() result (possibly sliced)"""
+    out = []
+    for a in ast.walk(fn):
+        if isinstance(a, ast.Assign) and len(a.targets) == 1 and isinstance(a.targets[0], ast.Tuple) and len(a.targets[0].elts) >= min_targets:
+            names = [e.value if isinstance(e, ast.Starred) else e for e in a.targets[0].elts]
+            val = None
+            for e in names:
+                if isinstance(e, ast.Name):
+                    for v, loops, guards, line, seq in fl.assigns.get(e.id, []):
+                        if line == a.lineno and v[0] == "item":
+                            val = simp(v[1])
+                    if val is not None:
+                        break
+            if val is not None and any(isinstance(x, tuple) and len(x) == 5 and x[0] == "meth" and x[2] == "split" for x in walk(val)):
+                out.append((a, val))
+    return out
+
+
 def _split_formats(ctx, pkg):
     for cls, lay in LAYOUT.items():
         file = pkg.cls(cls).file
@@ -265,19 +371,20 @@ def _split_formats(ctx, pkg):
         fl = Flow(fn, file)
         n = lay["n"]
         # the destructuring
-        dest = [a for a in ast.walk(fn) if isinstance(a, ast.Assign) and isinstance(a.targets[0], ast.Tuple) and any(isinstance(e, ast.Starred) for e in a.targets[0].elts)
-                and "split" in ast.unparse(a.value)]
+        dest = [(a, v) for a, v in _destructurings(fn, fl, 3) if any(isinstance(e, ast.Starred) for e in a.targets[0].elts)]
         if len(dest) != 1:
             ctx.unrec("R3", f"{cls}:destructuring", (file, fn.lineno), f"expected one starred destructuring of the split record, found {len(dest)}")
             continue
-        d = dest[0]
+        d, dv = dest[0]
         elts = d.targets[0].elts
         star = [i for i, e in enumerate(elts) if isinstance(e, ast.Starred)][0]
         fixed = len(elts) - 1
-        src = ast.unparse(d.value)
-        sep_ok = f".split('{lay['sep']}')" in src
-        bound = re.search(r"\[:(\d+)\]$", src)
-        total = int(bound.group(1)) if bound else None
+        src = show(dv)
+        # the record is <line>.split(sep), possibly cut to its first N fields
+        b0 = match(("sub", V("sp"), ("slice", ("const", None), ("const", V("n")), ("const", None))), dv)
+        sp = b0["sp"] if b0 else dv
+        total = b0["n"] if b0 and isinstance(b0["n"], int) else None
+        sep_ok = sp[0] == "meth" and sp[2] == "split" and sp[3] == (("const", lay["sep"]),) and not sp[4]
         starlen = (total if total is not None else n) - fixed
         ctx.check(sep_ok, "R3", f"{cls}:separator", (file, d.lineno), f"records are split at '{lay['sep']}'", found=src[-40:])
         if cls == "UMISTReaction":
@@ -290,7 +397,7 @@ def _split_formats(ctx, pkg):
         for attr in ("reactants", "products"):
             lo, hi = lay[attr]
             st = [f for f in fl.facts if f.kind == "attrstore" and f.target == attr]
-            ok = False
+            ok = None
             found = ""
             if st:
                 m = as_map(simp(st[-1].value))
@@ -298,12 +405,15 @@ def _split_formats(ctx, pkg):
                     base = m[2]
                     found = show(base)[-60:]
                     b = match(("sub", ("item", V("s"), V("star")), ("slice", V("lo"), V("hi"), ("const", None))), base)
-                    if b and isinstance(b["star"], tuple) and b["star"][0] == "star":
-                        l = b["lo"][1] if b["lo"][0] == "const" and b["lo"][1] is not None else 0
-                        h = b["hi"][1] if b["hi"][0] == "const" else None
+                    if b and isinstance(b["star"], tuple) and b["star"][0] == "star" and b["lo"][0] == "const" and b["hi"][0] == "const":
+                        l = b["lo"][1] if b["lo"][1] is not None else 0
+                        h = b["hi"][1]
                         ok = (l + base0, (h or 0) + base0) == (lo, hi)
-            ctx.check(ok, "R3", f"{cls}:{attr}:slice", (file, st[-1].line if st else fn.lineno),
-                      f"{attr} are fields {lo}..{hi - 1} of the record", expected=f"fields[{lo}:{hi}]", found=found)
+            if ok is None:
+                ctx.unrec("R3", f"{cls}:{attr}:slice", (file, st[-1].line if st else fn.lineno), f"cannot see which fields of the record the {attr} are read from: {found or 'no store'}")
+            else:
+                ctx.check(ok, "R3", f"{cls}:{attr}:slice", (file, st[-1].line if st else fn.lineno),
+                          f"{attr} are fields {lo}..{hi - 1} of the record", expected=f"fields[{lo}:{hi}]", found=found)
         # numeric fields
         pos = _positions(fl, set(lay["fields"]))
         for attr, (p, conv) in lay["fields"].items():
@@ -312,9 +422,14 @@ def _split_formats(ctx, pkg):
                 ctx.bad("R5", f"{cls}:{attr}", (file, fn.lineno), f"self.{attr} is never assigned from the record")
                 continue
             v, wraps = _unwrap(simp(f.value))
-            k = v[2] if v[0] == "item" and isinstance(v[2], int) else None
+            k = v[2] if v[0] == "item" and isinstance(v[2], int) and v[1] == dv else None
+            if v[0] == "sub" and v[1] == dv and v[2][0] == "const" and isinstance(v[2][1], int):
+                k = v[2][1]                      # the record indexed directly
             if k is not None and k < 0:
                 k = n + k
+            if k is None:
+                ctx.unrec("R5", f"{cls}:{attr}", (file, f.line), f"cannot see which field of the record self.{attr} is read from: {show(v)[:80]}")
+                continue
             ctx.check(k == p and (conv is None or conv in wraps), "R5", f"{cls}:{attr}", (file, f.line),
                       f"self.{attr} = {conv or ''}(field {p})", expected=f"field {p} through {conv}", found=f"field {k} through {wraps}")
 
@@ -337,6 +452,9 @@ def _kida(ctx, pkg):
                 rl = b0["hi"][1]
             if b0 and f.target == "products" and b0["hi"][0] == "binop" and b0["hi"][1] == "Add" and b0["hi"][3][0] == "const":
                 pl = b0["hi"][3][1]
+    if rl is None or pl is None:
+        ctx.unrec("R4", "KIDA:widths", (file, fn.lineno), "cannot see the column blocks the reactants / products are split from (expected line[:RL].split(), line[RL:RL+PL].split())")
+        return
     ctx.check(rl == 3 * 11 + 1 and pl == 5 * 11 + 1, "R4", "KIDA:widths", (file, fn.lineno),
               "reactant block = 3 names of 11 columns + 1, product block = 5 names of 11 columns + 1 (as naunet's own KIDA writer lays them out)",
               expected="rlen = 34, plen = 56", found=f"rlen = {rl}, plen = {pl}")
@@ -345,8 +463,11 @@ def _kida(ctx, pkg):
     # the writer may live in __format__ itself or in a helper it dispatches to: search the class
     wsrc = ast.unparse(pkg.cls("Reaction").node)
     fills = re.findall(r"_fill_list\(\[f'\{(\w+):<11\}' for \1 in \w+\], (\d), \w+\)", wsrc)
-    ctx.check(sorted(n_ for _, n_ in fills) == ["3", "5"], "R4", "KIDA:writer-widths", (R, w.lineno),
-              "the KIDA writer pads 3 reactant and 5 product names to 11 columns each")
+    if not fills:
+        ctx.unrec("R4", "KIDA:writer-widths", (R, w.lineno), "cannot find the KIDA writer's padded name lists (_fill_list([f'{x:<11}' for x in ..], n, ..))")
+    else:
+        ctx.check(sorted(n_ for _, n_ in fills) == ["3", "5"], "R4", "KIDA:writer-widths", (R, w.lineno),
+                  "the KIDA writer pads 3 reactant and 5 product names to 11 columns each", found=str(fills))
     RL, PL = ("const", rl), ("const", pl)
     want = {
         "reactants": ("slice", ("const", None), RL, ("const", None)),
@@ -362,6 +483,9 @@ def _kida(ctx, pkg):
                 base = m[2]
                 found = show(base)[:90]
                 ok = base == ("meth", ("sub", line, sl), "split", (), ())
+        if not found:
+            ctx.unrec("R4", f"KIDA:{attr}:columns", (file, st[-1].line if st else fn.lineno), f"the {attr} are not built by a comprehension over a slice of the line")
+            continue
         ctx.check(ok, "R4", f"KIDA:{attr}:columns", (file, st[-1].line if st else fn.lineno),
                   f"{attr} are the blank-separated names in columns {'1-34' if attr == 'reactants' else '35-90'}", found=found)
     tail = ("meth", ("sub", line, ("slice", ("binop", "Add", RL, PL), ("const", None), ("const", None))), "split", (), ())
@@ -372,12 +496,21 @@ def _kida(ctx, pkg):
             ctx.bad("R5", f"KIDA:{attr}", (file, fn.lineno), f"self.{attr} is never assigned from the record")
             continue
         v, wraps = _unwrap(simp(f.value))
-        ok = v[0] == "item" and v[1] == tail and v[2] == p and conv in wraps
+        if v[0] == "sub" and v[2][0] == "const" and isinstance(v[2][1], int):
+            v = ("item", v[1], v[2][1])          # the token list indexed directly
+        if v[0] != "item" or not isinstance(v[2], int) or not any(isinstance(x, tuple) and len(x) == 5 and x[0] == "meth" and x[2] == "split" for x in walk(v[1])):
+            ctx.unrec("R5", f"KIDA:{attr}", (file, f.line), f"cannot see which token of the record self.{attr} is read from: {show(v)[:80]}")
+            continue
+        ok = v[1] == tail and v[2] in (p, p - 13) and conv in wraps
         ctx.check(ok, "R5", f"KIDA:{attr}", (file, f.line), f"self.{attr} = {conv}(token {p} of the text after column 90)",
                   expected=f"{conv}(line[90:].split()[{p}])", found=show(simp(f.value))[:100])
-    dest = [a for a in ast.walk(fn) if isinstance(a, ast.Assign) and isinstance(a.targets[0], ast.Tuple) and "split" in ast.unparse(a.value) and len(a.targets[0].elts) > 5]
-    ctx.check(len(dest) == 1 and len(dest[0].targets[0].elts) == 13 and not any(isinstance(e, ast.Starred) for e in dest[0].targets[0].elts), "R3", "KIDA:arity", (file, fn.lineno),
-              "the numeric tail of a KIDA record has exactly 13 tokens", found=str(len(dest[0].targets[0].elts)) if dest else "none")
+    dest = [a for a, v in _destructurings(fn, fl, 6) if v == tail]
+    others = [a for a, v in _destructurings(fn, fl, 6) if v != tail]
+    if not dest:
+        ctx.unrec("R3", "KIDA:arity", (file, others[0].lineno if others else fn.lineno), "no destructuring of the blank-separated text after column 90 into named fields")
+    else:
+        ctx.check(len(dest) == 1 and len(dest[0].targets[0].elts) == 13 and not any(isinstance(e, ast.Starred) for e in dest[0].targets[0].elts), "R3", "KIDA:arity", (file, fn.lineno),
+                  "the numeric tail of a KIDA record has exactly 13 tokens", found=str(len(dest[0].targets[0].elts)) if dest else "none")
 
 
 # ------------------------------------------------------------------ Leeds
@@ -398,10 +531,14 @@ def _leeds(ctx, pkg):
         z = simp(inc[0].loops[0].iter)
         if len(z[2]) == 2:
             labels, widths = lit(z[2][0]), lit(z[2][1])
+    # independent of the idiom: the columns each attribute is decoded from, computed by unrolling the loop over the (literal) tables
+    by_columns = _leeds_columns(ctx, pkg, fn, file)
     if not inc or labels is None or widths is None:
-        # not the cursor idiom (one loop over zip(labels, widths) advancing a column cursor): another way of cutting the record --
-        # prefix sums, slices by table -- is not decided by this rule
-        ctx.unrec("R4", "Leeds:layout", (file, fn.lineno), "the Leeds record is not cut by the reviewed cursor idiom (for label, width in zip(..): clip = line[cursor:cursor+width]; cursor += width)")
+        # not the cursor idiom (one loop over zip(labels, widths) advancing a column cursor)
+        if not by_columns:
+            ctx.unrec("R4", "Leeds:layout", (file, fn.lineno), "the Leeds record is neither cut by the reviewed cursor idiom (for label, width in zip(..): clip = line[cursor:cursor+width]; "
+                                                              "cursor += width) nor by a loop over literal column tables that can be unrolled")
+        _leeds_prefix(ctx, fl, file)
         return
     ctx.check(labels == LEEDS_LABELS, "R3", "Leeds:labels", (file, fn.lineno), "the nine fields of a Leeds record, in file order", expected=str(LEEDS_LABELS), found=str(labels))
     ctx.check(widths == LEEDS_WIDTHS and sum(widths or []) == 125, "R4", "Leeds:widths", (file, fn.lineno),
@@ -428,6 +565,10 @@ def _leeds(ctx, pkg):
     for lab, attr in LEEDS_ATTR.items():
         got = seen.get(lab, set()) - {"reaction_type"}
         ctx.check(got == {attr}, "R5", f"Leeds:{lab}->{attr}", (file, fn.lineno), f"field `{lab}` feeds self.{attr}", expected=attr, found=str(sorted(got)))
+    _leeds_prefix(ctx, fl, file)
+
+
+def _leeds_prefix(ctx, fl, file):
     # species of ice are spelled with the prefix G in this format
     n = 0
     for f in fl.facts:
@@ -436,6 +577,156 @@ def _leeds(ctx, pkg):
             s = show(simp(f.value))
             ctx.check("surface_prefix='G'" in s, "R5", f"Leeds:{f.target}:surface prefix", (file, f.line), "Leeds names are parsed with the surface prefix 'G'", found=s[:100])
     ctx.floor("R5", "Leeds species stores", n, 2)
+
+
+def _static_pairs(fn, loop):
+    """literal ((label, width), ...) a for-loop iterates over: a literal sequence of pairs, zip of two literal sequences, or locals
+    bound exactly once in the function to such literals; None otherwise"""
+    once = {}
+    for n in ast.walk(fn):
+        if isinstance(n, ast.Name) and isinstance(n.ctx, (ast.Store, ast.Del)):
+            once[n.id] = once.get(n.id, 0) + 1
+    bound = {a.targets[0].id: a.value for a in ast.walk(fn) if isinstance(a, ast.Assign) and len(a.targets) == 1 and isinstance(a.targets[0], ast.Name)
+             and once.get(a.targets[0].id) == 1 and a.lineno < loop.lineno}
+    mutated = {c.func.value.id for c in ast.walk(fn) if isinstance(c, ast.Call) and isinstance(c.func, ast.Attribute) and isinstance(c.func.value, ast.Name)
+               and c.func.attr in ("append", "extend", "insert", "remove", "pop", "clear", "sort", "reverse")}
+    mutated |= {t.value.id for a in ast.walk(fn) if isinstance(a, (ast.Assign, ast.AugAssign)) for t in (a.targets if isinstance(a, ast.Assign) else [a.target])
+                if isinstance(t, ast.Subscript) and isinstance(t.value, ast.Name)}
+
+    def lit(e):
+        if isinstance(e, ast.Name) and e.id in bound and e.id not in mutated:
+            e = bound[e.id]
+        if isinstance(e, (ast.List, ast.Tuple)) and e.elts and not any(isinstance(x, ast.Starred) for x in e.elts):
+            return e
+        return None
+    it = loop.iter
+    if isinstance(it, ast.Call) and isinstance(it.func, ast.Name) and it.func.id == "zip" and len(it.args) == 2 and not it.keywords:
+        a, b = lit(it.args[0]), lit(it.args[1])
+        if a is None or b is None or len(a.elts) != len(b.elts):
+            return None
+        rows = [ast.Tuple(elts=[x, y], ctx=ast.Load()) for x, y in zip(a.elts, b.elts)]
+    else:
+        a = lit(it)
+        if a is None:
+            return None
+        rows = list(a.elts)
+    if not all(isinstance(r, ast.Tuple) and len(r.elts) == 2 and all(isinstance(x, ast.Constant) for x in r.elts) for r in rows):
+        return None
+    return ast.Tuple(elts=rows, ctx=ast.Load())
+
+
+def _leeds_columns(ctx, pkg, fn, file):
+    """The record columns each attribute of a Leeds reaction is decoded from (DESIGN Appendix C), whatever the way the line is cut:
+    the loop over the literal (label, width) table(s) is unrolled (sa.normalize), the cursor arithmetic folded, a dict of named
+    clips read back, and every `self.<attr> = conv(line[a:b]...)` compared with the published columns.  -> True when the layout
+    could be decided this way (obligations R4 'Leeds:<attr>:columns' emitted), False when the function has no such loop."""
+    import copy
+    from ..normalize import _unroll_one
+    new = copy.deepcopy(fn)
+    done = 0
+
+    def rewrite(stmts):
+        nonlocal done
+        out = []
+        for st in stmts:
+            for fld in ("body", "orelse", "finalbody"):
+                b = getattr(st, fld, None)
+                if isinstance(b, list) and b and isinstance(b[0], ast.stmt):
+                    setattr(st, fld, rewrite(b))
+            if isinstance(st, ast.For) and isinstance(st.target, ast.Tuple) and len(st.target.elts) == 2:
+                seq = _static_pairs(new, st)
+                un = _unroll_one(st, seq) if seq is not None else None
+                if un is not None:
+                    for u in un:
+                        ast.fix_missing_locations(u)
+                    out.extend(un)
+                    done += 1
+                    continue
+            out.append(st)
+        return out
+    new.body = rewrite(new.body)
+    if done != 1:
+        return False
+    fl = Flow(new, file)
+    LINE = ("param", "react_string")
+
+    def fold(v):
+        if not isinstance(v, tuple) or not v:
+            return v
+        v = tuple(fold(x) if isinstance(x, tuple) else x for x in v)
+        if v[0] == "binop" and v[1] in ("Add", "Sub", "Mult") and v[2][0] == "const" and v[3][0] == "const" and isinstance(v[2][1], int) and isinstance(v[3][1], int) \
+                and not isinstance(v[2][1], bool) and not isinstance(v[3][1], bool):
+            return ("const", {"Add": v[2][1] + v[3][1], "Sub": v[2][1] - v[3][1], "Mult": v[2][1] * v[3][1]}[v[1]])
+        # s[a:][:n] is s[a:a+n]
+        NONE = ("const", None)
+        if v[0] == "sub" and v[2][0] == "slice" and v[2][1] in (NONE, ("const", 0)) and v[2][3] == NONE and v[2][2][0] == "const" and isinstance(v[2][2][1], int) and v[2][2][1] >= 0 \
+                and v[1][0] == "sub" and v[1][2][0] == "slice" and v[1][2][2] == NONE and v[1][2][3] == NONE and v[1][2][1][0] == "const" and isinstance(v[1][2][1][1], int) and v[1][2][1][1] >= 0:
+            a_ = v[1][2][1][1]
+            return ("sub", v[1][1], ("slice", ("const", a_), ("const", a_ + v[2][2][1]), NONE))
+        return v
+
+    def live(f):
+        """False when a guard of the fact compares two different constants (an arm of the unrolled label chain that belongs to another label)"""
+        for g, pol in f.guards:
+            g = simp(g)
+            if g[0] == "cmp" and g[1] == ("Eq",) and g[2][0][0] == "const" and g[2][1][0] == "const" and (g[2][0][1] == g[2][1][1]) != pol:
+                return False
+        return True
+    # named clips: D[<label>] = <slice of the line>, read back as D[<label>]
+    named = {}
+    for f in fl.facts:
+        if f.kind == "store" and f.index is not None and f.index[0] == "const" and not f.loops and live(f):
+            named.setdefault((f.target, f.index), []).append(f)
+
+    def resolve(v, seq, depth=0):
+        if not isinstance(v, tuple) or not v or depth > 4:
+            return v
+        if v[0] == "sub" and v[1][0] == "acc" and v[2][0] == "const":
+            st = [f for f in named.get((v[1][1], v[2]), []) if f.seq < seq]
+            if len(st) == 1 and len(named[(v[1][1], v[2])]) == 1:
+                return resolve(st[0].value, seq, depth + 1)
+        return tuple(resolve(x, seq, depth) if isinstance(x, tuple) else x for x in v)
+    start = 0
+    want = {}
+    for lab, w in zip(LEEDS_LABELS, LEEDS_WIDTHS):
+        want[LEEDS_ATTR[lab]] = (start, start + w)
+        start += w
+    conv = {"idxfromfile": "int", "rtype": "int", "alpha": "float", "beta": "float", "gamma": "float", "temp_min": "float", "temp_max": "float"}
+    n = 0
+    for attr, (a, b) in want.items():
+        st = [f for f in fl.facts if f.kind == "attrstore" and f.target == attr and f.extra.get("obj") == SELF and live(f)]
+        key = f"Leeds:{attr}:columns"
+        if len(st) != 1:
+            ctx.unrec("R4", key, (file, fn.lineno), f"expected one store into self.{attr}, found {len(st)}")
+            continue
+        f = st[0]
+        v = fold(simp(resolve(simp(f.value), f.seq)))
+        cuts = {x for x in walk(v) if isinstance(x, tuple) and len(x) == 3 and x[0] == "sub" and x[1] == LINE and x[2][0] == "slice"}
+        if len(cuts) != 1 or any(isinstance(x, tuple) and x and x[0] in ("acc", "carried", "after", "unknown") for x in walk(v)):
+            cond = [x for x in walk(v) if isinstance(x, tuple) and x and x[0] == "phi"]
+            if len(cuts) >= 1 and cond and not any(isinstance(x, tuple) and x and x[0] in ("acc", "carried", "after", "unknown") for x in walk(v)):
+                ctx.bad("R4", key, (file, f.line), f"the columns self.{attr} is cut from depend on a condition ({show(cond[0][1])[:60]}): the column cursor does not advance once per field",
+                        expected=f"line[{a}:{b}]", found=show(v)[:120])
+            else:
+                ctx.unrec("R4", key, (file, f.line), f"cannot reduce the value of self.{attr} to one slice of the record: {show(v)[:120]}")
+            continue
+        cut = cuts.pop()
+        lo, hi = cut[2][1], cut[2][2]
+        got = (lo[1] if lo[0] == "const" and lo[1] is not None else 0 if lo == ("const", None) else None, hi[1] if hi[0] == "const" else None)
+        if got[0] is None or not isinstance(got[1], int):
+            ctx.unrec("R4", key, (file, f.line), f"the slice bounds of self.{attr} are not constants after unrolling: {show(cut)[:100]}")
+            continue
+        n += 1
+        okc = got == (a, b)
+        # conversion: numeric attributes through int / float of the clip (the type code drops its first character)
+        shape = True
+        if attr in conv:
+            inner = ("sub", cut, ("slice", ("const", 1), ("const", None), ("const", None))) if attr == "rtype" else cut
+            shape = v == ("call", ("global", conv[attr]), (inner,), ())
+        ctx.check(okc and shape, "R4", key, (file, f.line), f"self.{attr} is decoded from columns {a + 1}-{b} of the 125-column record" + ("" if shape else f" through {conv.get(attr)}()"),
+                  expected=f"{conv.get(attr, '')}(line[{a}:{b}]{'[1:]' if attr == 'rtype' else ''})", found=show(v)[:120])
+    ctx.floor("R4", "Leeds attributes with decided columns", n, 9, (file, fn.lineno))
+    return True
 
 
 # ------------------------------------------------------------------ R6
@@ -453,9 +744,29 @@ def _r6(ctx, rm, pkg):
     ctx.floor("R6", "code table entries", n, 44)
     # UCLCHEM: unmarked reactions default to two-body
     fn = pkg.method("UCLCHEMReaction", "_parse_string")
-    src = ast.unparse(fn)
-    ctx.check(re.search(r"self\.reactant2type\.get\(\w+\[1\], self\.ReactionType\.UCLCHEM_MA\)", src) is not None, "R6", "UCLCHEM:default type", ("naunet/reactions/uclchemreaction.py", fn.lineno),
-              "the marker is the second token; records without a marker are two-body reactions")
+    UCF = "naunet/reactions/uclchemreaction.py"
+    fl = Flow(fn, UCF)
+    st = [f for f in fl.facts if f.kind == "attrstore" and f.target == "reaction_type" and f.extra.get("obj") == SELF]
+    v = simp(st[0].value) if st else None
+    tab = v[1] if v is not None and v[0] == "meth" and v[2] == "get" and len(v[3]) == 2 and not v[4] else None
+    if len(st) != 1 or tab != ("attr", SELF, "reactant2type"):
+        ctx.unrec("R6", "UCLCHEM:default type", (UCF, fn.lineno), "the reaction type is not looked up as self.reactant2type.get(<marker token>, <default>)")
+    else:
+        tok, dflt = v[3]
+        # the marker is the second token of the record: item 1 of the split line, or element 1 of its starred head
+        pos = None
+        if tok[0] == "sub" and tok[2][0] == "const" and isinstance(tok[2][1], int) and tok[1][0] == "item" and isinstance(tok[1][2], tuple) and tok[1][2][0] == "star":
+            pos = tok[1][2][1] + tok[2][1] if tok[2][1] >= 0 else None
+        elif tok[0] == "item" and isinstance(tok[2], int) and tok[2] >= 0:
+            pos = tok[2]
+        elif tok[0] == "sub" and tok[2][0] == "const" and isinstance(tok[2][1], int) and tok[2][1] >= 0 and tok[1][0] == "meth" and tok[1][2] == "split":
+            pos = tok[2][1]
+        if pos is None:
+            ctx.unrec("R6", "UCLCHEM:default type", (UCF, st[0].line), f"cannot see which token of the record is the marker: {show(tok)[:80]}")
+        else:
+            ctx.check(pos == 1 and show(dflt).endswith("ReactionType.UCLCHEM_MA"), "R6", "UCLCHEM:default type", (UCF, st[0].line),
+                      "the marker is the second token; records without a marker are two-body reactions", expected="reactant2type.get(<token 1>, ReactionType.UCLCHEM_MA)",
+                      found=f"token {pos}, default {show(dflt)[:60]}")
 
 
 K = "naunet/reactions/kidareaction.py"
@@ -487,4 +798,42 @@ MUTANTS = [
 BENIGN = [
     {"name": "enum-member-renamed", "edits": [{"file": UC, "old": "UCLCHEM_HD", "new": "UCLCHEM_H2D", "count": 3}]},
     {"name": "factory-strip-first", "file": NET, "old": "    if react_string and react_string.strip():", "new": "    if react_string is not None and react_string.strip():"},
+]
+KR = "naunet/reactions/kromereaction.py"
+_KR_RP = ('                elif key == "r" and self._create_species(value):\n                    self.reactants.append(self._create_species(value))\n'
+          '                elif key == "p" and self._create_species(value):\n                    self.products.append(self._create_species(value))\n')
+_KR_PRE = ('        elif line.startswith("@format:"):\n            cls.reacformat = line.replace("@format:", "")\n            return ""\n        elif line.startswith("@var"):\n'
+           '            if "Hnuclei" not in line:\n                cls._user_vars.append(line.replace("@var:", "").strip())\n            return ""\n'
+           '        elif line.startswith("@common:"):\n            commonlist = line.replace("@common:", "").strip().split(",")\n            cls._user_commons.extend(commonlist)\n            return ""\n'
+           '        else:\n            return line.strip()\n')
+
+
+def _kr_pre(extra=""):
+    return ('\n        if line.startswith("@format:"):\n            cls.reacformat = line.replace("@format:", "")\n        elif line.startswith("@var"):\n'
+            '            if "Hnuclei" not in line:\n                cls._user_vars.append(line.replace("@var:", "").strip())\n'
+            '        elif line.startswith("@common:"):\n            commonlist = line.replace("@common:", "").strip().split(",")\n            cls._user_commons.extend(commonlist)\n'
+            + extra + '        else:\n            return line.strip()\n\n        return ""\n')
+
+
+MUTANTS += [
+    {"name": "krome-product-appended-unfiltered", "file": KR, "old": 'elif key == "p" and self._create_species(value):', "new": 'elif key == "p":', "rules": ["R2"]},
+    {"name": "krome-merged-side-unfiltered", "file": KR, "old": _KR_RP, "new": '                elif key in ("r", "p"):\n                    side = self.reactants if key == "r" else self.products\n                    side.append(self._create_species(value))\n', "rules": ["R2"]},
+    {"name": "krome-single-exit-drops-bang-lines", "file": KR, "old": _KR_PRE, "new": _kr_pre('        elif line.startswith("!"):\n            pass\n'), "rules": ["R1"]},
+    {"name": "uclchem-kwlist-concat-lacks-nan", "file": UC, "old": 'kwlist = [*self.reactant2type.keys(), "NAN"]', "new": 'kwlist = list(self.reactant2type) + ["NA"]', "rules": ["R2"]},
+    {"name": "umist-named-record-13-fields", "file": U, "old": '            idx, code, *rps, _, a, b, c, lt, ut = react_string.split(":")[:14]\n', "new": '            columns = react_string.split(":")[:13]\n            idx, code, *rps, _, a, b, c, lt, ut = columns\n', "rules": ["R3"]},
+]
+BENIGN += [
+    {"name": "krome-species-arms-merged", "file": KR, "old": _KR_RP, "new": '                elif key in ("r", "p"):\n                    if self._create_species(value):\n                        side = self.reactants if key == "r" else self.products\n                        side.append(self._create_species(value))\n'},
+    {"name": "krome-preprocessing-single-exit", "file": KR, "old": _KR_PRE, "new": _kr_pre()},
+    {"name": "uclchem-kwlist-concatenated-filter-conjunct", "edits": [
+        {"file": UC, "old": 'kwlist = [*self.reactant2type.keys(), "NAN"]', "new": 'kwlist = list(self.reactant2type) + ["NAN"]'}]},
+    {"name": "umist-record-named-first", "file": U, "old": '            idx, code, *rps, _, a, b, c, lt, ut = react_string.split(":")[:14]\n', "new": '            columns = react_string.split(":")[:14]\n            idx, code, *rps, _, a, b, c, lt, ut = columns\n'},
+    {"name": "kida-tail-named-first", "file": K, "old": "            a, b, c, _, _, _, itype, lt, ut, form, idx, _, _ = react_string[\n                rlen + plen :\n            ].split()\n", "new": "            numbers = react_string[rlen + plen :].split()\n            a, b, c, _, _, _, itype, lt, ut, form, idx, _, _ = numbers\n"},
+]
+MUTANTS += [
+    {"name": "leeds-clip-starts-one-late", "file": L, "old": "clip = react_string[stidx : stidx + len]", "new": "clip = react_string[stidx + 1 : stidx + len]", "rules": ["R4"]},
+    {"name": "leeds-type-code-keeps-first-char", "file": L, "old": "self.rtype = int(clip[1:])", "new": "self.rtype = int(clip)", "rules": ["R4"]},
+]
+BENIGN += [
+    {"name": "leeds-clip-by-length", "file": L, "old": "clip = react_string[stidx : stidx + len]", "new": "clip = react_string[stidx:][:len]"},
 ]
